@@ -95,6 +95,7 @@ pub proof fn lemma_lsf_is_positional(m: int, b: int)
     } else {
         assert(t.len() == 0);
         assert(s.len() == 1);
+        assert((m / b) * b == 0) by (nonlinear_arith) requires m / b == 0;
         assert(m % b == m);
         assert(radix_value(s.drop_last(), b) == 0);
     }
